@@ -48,7 +48,10 @@ func init() {
 		}
 	}
 	Registry["C05"] = &Check{Level: "model_checking", Run: poisoned(c05)}
-	Registry["C08"] = &Check{Level: "model_checking", Run: poisoned(c08)}
+	Registry["C08"] = &Check{Level: "model_checking", Run: func(r *core.Run) {
+		poisoned(c08)(r)
+		c08Attributes(r)
+	}}
 	Registry["C20"] = &Check{Level: "model_checking", Run: func(r *core.Run) {
 		poisoned(c20)(r)
 		// whole procedures run by the real binary: reads around nested executions (EXECUTE, SOURCE, prepared statements, function
@@ -1147,5 +1150,88 @@ func c01Unencodable(r *core.Run) {
 		if what != "" {
 			r.Violation("c01:unencodable:"+strings.TrimPrefix(sc.Name, "unenc."), fmt.Sprintf("procedure %q: %s", sc.SQL, what), map[string]interface{}{"sql": sc.SQL})
 		}
+	}
+}
+
+// c08Attributes: a failing statement leaves the table's attributes as they were, too - format, delimiter, delimiter
+// positions, encoding, line break, header (what SHOW FIELDS tells) - and a later COMMIT writes the table in the layout it
+// had: tables of several formats, a change, a series of failing statements, SHOW FIELDS before and after, COMMIT, fresh read.
+func c08Attributes(r *core.Run) {
+	type variant struct{ name, file, content, pre string }
+	vs := []variant{
+		{"FIXED:positions", "t.txt", "id item  qty\n1  apple 10 \n2  kiwi  200\n3  fig   3  \n", "SET @@IMPORT_FORMAT TO FIXED; SET @@DELIMITER_POSITIONS TO '[3, 9, 12]';"},
+		{"FIXED:spaces", "t.txt", "id item  qty\n1  apple 10 \n2  kiwi  200\n3  fig   3  \n", "SET @@IMPORT_FORMAT TO FIXED;"},
+		{"CSV:semicolon", "t.csv", "id;item;qty\r\n1;apple;10\r\n2;kiwi;200\r\n3;fig;3\r\n", "SET @@DELIMITER TO ';';"},
+		{"TSV", "t.tsv", "id\titem\tqty\n1\tapple\t10\n2\tkiwi\t200\n3\tfig\t3\n", ""},
+		{"LTSV", "t.ltsv", "id:1\titem:apple\tqty:10\nid:2\titem:kiwi\tqty:200\nid:3\titem:fig\tqty:3\n", ""},
+		{"JSONL", "t.jsonl", "{\"id\":1,\"item\":\"apple\",\"qty\":10}\n{\"id\":2,\"item\":\"kiwi\",\"qty\":200}\n{\"id\":3,\"item\":\"fig\",\"qty\":3}\n", ""},
+	}
+	want := "1|apple|10;2|pear|200;3|fig|3"
+	for vi, v := range vs {
+		dir := r.Dir(fmt.Sprintf("attr%d", vi))
+		writeFile(filepath.Join(dir, v.file), v.content)
+		t := "`" + v.file + "`"
+		p, err := sut.NewProc(dir, nil)
+		if err != nil {
+			core.Fail("proc: %v", err)
+		}
+		_ = p.Tx.SetFormatFlag("TEXT", "")
+		fields := func() string {
+			rs := p.Exec("SHOW FIELDS FROM " + t + ";")
+			return rs.Out + rs.Err
+		}
+		sig := "attributes:" + v.name
+		if rs := p.Exec(v.pre + " UPDATE " + t + " SET item = 'pear' WHERE id = 2;"); rs.Err != "" {
+			p.End()
+			r.Violation(sig+":error", "UPDATE fails: "+firstLine(rs.Err), map[string]interface{}{"variant": v.name})
+			continue
+		}
+		before := fields()
+		nfail := 0
+		for _, q := range []string{"ALTER TABLE %s ADD (z DEFAULT 1 %% (LEN(item) - 4));", "INSERT INTO %s VALUES (1);", "UPDATE %s SET qty = 1 %% 0;", "ALTER TABLE %s ADD (w DEFAULT nosuch);",
+			"ALTER TABLE %s DROP nosuch;", "ALTER TABLE %s RENAME nosuch TO x;", "ALTER TABLE %s ADD (item);", "REPLACE INTO %s (id, item) USING (nosuch) VALUES (1, 'x');"} {
+			if rs := p.Exec(fmt.Sprintf(q, t)); rs.Err != "" && !rs.Fatal {
+				nfail++
+			} else if rs.Fatal {
+				r.Violation(sig+":fatal", fmt.Sprintf(q, t)+": "+firstLine(rs.Err), map[string]interface{}{"variant": v.name})
+			}
+		}
+		after := fields()
+		if before != after {
+			r.Violation(sig+":changed-by-failing-statement", fmt.Sprintf("SHOW FIELDS of %s differs after %d failing statements:\n--- before\n%s\n--- after\n%s", v.file, nfail, before, after), map[string]interface{}{"variant": v.name})
+		}
+		rs := p.Exec("COMMIT;")
+		p.End()
+		if rs.Err != "" {
+			r.Violation(sig+":commit", "COMMIT fails: "+firstLine(rs.Err), map[string]interface{}{"variant": v.name})
+			continue
+		}
+		q, err := sut.NewProc(dir, nil)
+		if err != nil {
+			core.Fail("proc: %v", err)
+		}
+		q.Exec(v.pre)
+		rr := q.Exec("SELECT id, item, qty FROM " + t + ";")
+		got := "error: " + firstLine(rr.Err)
+		if rr.Err == "" {
+			if ts, err := sut.ParseJSONTables(rr.Out); err == nil && len(ts) == 1 {
+				var rows []string
+				for _, row := range ts[0].Rows {
+					var cs []string
+					for _, c := range row {
+						cs = append(cs, c.String())
+					}
+					rows = append(rows, strings.Join(cs, "|"))
+				}
+				got = strings.Join(rows, ";")
+			}
+		}
+		q.End()
+		_ = os.RemoveAll(dir)
+		if got != want {
+			r.Violation(sig+":committed-layout", fmt.Sprintf("%s: after the failing statements and COMMIT a fresh read shows %q, expected %q", v.file, got, want), map[string]interface{}{"variant": v.name})
+		}
+		r.Count("attribute_histories", 1)
+		r.Count("attribute_failing_statements", nfail)
 	}
 }
